@@ -15,6 +15,9 @@ type Unit struct {
 	// PSI
 	Pointer  int       `json:"pointer,omitempty"`
 	Sections []Section `json:"sections,omitempty"`
+	// Raw, when set, replaces the encoded bytes of the unit (pointer_field included): used by
+	// the bit-rot engine to carry a corrupted unit.
+	Raw []byte `json:"raw,omitempty"`
 	// packetisation
 	Chunks []int `json:"chunks"`
 	// Straddle > 0: the last Straddle bytes of the previous unit of this PID are carried at the
@@ -96,6 +99,9 @@ func (u *Unit) UnitPayload() []byte {
 
 // Bytes is the byte string the unit puts into TS payloads (without trailing PSI stuffing).
 func (u *Unit) Bytes() []byte {
+	if u.Raw != nil {
+		return append([]byte{}, u.Raw...)
+	}
 	if u.IsPES() {
 		return EncodePES(u.PES, u.UnitPayload())
 	}
